@@ -113,19 +113,23 @@ def check_rescale(case):
     raw = rs.randint(-500, 3000, shape).astype(case['raw_dtype'])
     if case['raw_dtype'] == 'uint16':
         raw = np.abs(raw).astype('uint16')
-    if float(sl) != int(sl):
+    if float(sl) == 0.5:
         raw = (raw // 2 * 2).astype(case['raw_dtype'])   # keep raw*slope integral for slope 1/2
     hdr = {'PixelSpacing': tuple(case['spacing']), 'RescaleSlope': sl, 'RescaleIntercept': ic, 'ConvolutionKernel': 'B30f'}
     want = raw.astype(np.float64) * float(sl) + float(ic)
-    if want.min() < -32768 or want.max() > 32767 or not np.all(want == np.rint(want)):
+    if want.min() < -32768 or want.max() > 32767:
         return None
+    # a fractional slope gives non-integral Hounsfield values: the int16 voxel is then the NEAREST integer (a value
+    # within half a unit; exact ties are left out), never one a whole unit away
+    ties = np.abs(want - np.floor(want) - 0.5) < 1e-6
     pipe = A.Compose([A.RescaleSlopeIntercept(p=1.0)])
     try:
         res = pipe(image=raw, dicom=hdr)
     except Exception as e:  # noqa
         return ('C16:RescaleSlopeIntercept:raises', '%s: %s' % (type(e).__name__, str(e)[:160]), 'int16 voxels raw*slope+intercept', [])
     out, h2 = res['image'], res['dicom']
-    if str(out.dtype) != 'int16' or not np.array_equal(out.astype(np.float64), want):
+    if str(out.dtype) != 'int16' or out.shape != want.shape or np.any((np.abs(out.astype(np.float64) - want) > 0.5) & ~ties) \
+            or np.any(np.abs(out.astype(np.float64) - want) > 0.5 + 1e-6):
         return ('C16:RescaleSlopeIntercept:voxels', 'dtype %s, first voxels %s' % (out.dtype, out.ravel()[:4].tolist()),
                 'int16 %s' % want.ravel()[:4].tolist(), [])
     if h2.get('RescaleSlope') != 1 or h2.get('RescaleIntercept') != 0 or \
@@ -163,7 +167,7 @@ def run(seed=0, tier='quick', hints=None, broken=False):
                          'observed': bad[1], 'expected': bad[2], 'log': bad[3]})
     for i in range(n // 2):
         case = {'shape': rng.sample([3, 4, 5, 6], 3), 'seed': R.pick_seed(rng), 'spacing': [0.7, 0.4],
-                'slope': rng.choice([1, 2, 1.0, 2.0, 0.5]), 'intercept': rng.choice([-1024, 0, -1024.0, 10, 10.0]),
+                'slope': rng.choice([1, 2, 1.0, 2.0, 0.5, 0.3, 1.1, 0.7]), 'intercept': rng.choice([-1024, 0, -1024.0, 10, 10.0, 12.5]),
                 'raw_dtype': rng.choice(['int16', 'uint16'])}
         bad = check_rescale(case)
         evals += 1
